@@ -282,6 +282,13 @@ func TestC20_EnvelopeGrid(t *testing.T) {
 				e[i] = e[i].WithHead(2)
 				run(fmt.Sprintf("%s%s=longhead", pre, names[i]), "element-form", icbor.Encode(icbor.Tag(18, icbor.Arr(e...))), true)
 			}
+			for i, name := range names {
+				e := elems()
+				if e[i].Kind == icbor.KBytes {
+					e[i] = smallUintsOf(e[i].B)
+					run(fmt.Sprintf("%s%s=int-array-spelling-it", pre, name), "element", icbor.Encode(icbor.Tag(18, icbor.Arr(e...))), true)
+				}
+			}
 			for i := 0; i < 4; i++ {
 				for j := i + 1; j < 4; j++ {
 					for _, ri := range []int{3, 8, 10, 14} {
@@ -317,6 +324,12 @@ func TestC20_EnvelopeGrid(t *testing.T) {
 				{"bstr-true", icbor.Bstr([]byte{0xf5})},
 				{"bstr-float", icbor.Bstr(icbor.Encode(icbor.F64(1)))},
 				{"bstr-bstr-null", icbor.Bstr(icbor.Encode(icbor.Bstr([]byte{0xf6})))},
+				// arrays of small integers SPELLING bytes (a typed decoder may
+				// fill a byte slice from them): the claims map, an empty map
+				{"int-array-spelling-claims", smallUintsOf(claims)},
+				{"int-array-spelling-empty-map", icbor.Arr(icbor.U(0xa0))},
+				{"int-array-spelling-null", icbor.Arr(icbor.U(0xf6))},
+				{"text-spelling-claims", &icbor.Node{Kind: icbor.KText, B: claims}},
 			}
 			// tagged payload items: every tag-number width, incl. numbers whose
 			// last head byte looks like a map head (0xa0..0xbf)
@@ -519,4 +532,12 @@ func FuzzC20_Envelope(f *testing.F) {
 			t.Fatalf("C20 violated: %s\n  token: %x", msg, data)
 		}
 	})
+}
+
+func smallUintsOf(b []byte) *icbor.Node {
+	it := make([]*icbor.Node, len(b))
+	for i, x := range b {
+		it[i] = icbor.U(uint64(x))
+	}
+	return icbor.Arr(it...)
 }
